@@ -307,23 +307,34 @@ def run(rep: Report, prog: Program, tier: str) -> None:
         rep.fail(mk_finding(prog, PROP, "C14-CLOSED", close, b[0] if b else close.node, "close() does not start with the `if self.__isClosed: ... return` latch test",
                             construct="close latch test"))
     awaits_before = []
+    awaits_before_sig = []
 
     def ev2(node, f):
         if isinstance(node, (ast.Assign, ast.AnnAssign)):
             tg = node.targets if isinstance(node, ast.Assign) else [node.target]
             if any(attr_name(t) == "__isClosed" for t in tg):
                 return ["latched"]
+        if isinstance(node, ast.Call) and unparse(node.func) == "self.__setSignalingState" and node.args and isinstance(node.args[0], ast.Constant) and node.args[0].value == "closed":
+            return ["signaling-closed"]
         return []
 
     def ob2(node, st, f):
         if isinstance(node, ast.Await) and "latched" not in st.events and not st.has_guard("self.__isClosed", True):
             awaits_before.append(node)
+        # setRemoteDescription / setLocalDescription are fenced off a closing connection only by `closed` being absent from the state table
+        if isinstance(node, ast.Await) and "latched" in st.events and "signaling-closed" not in st.events:
+            awaits_before_sig.append(node)
 
     EventsDomain(prog, ev2, ob2).run(close)
     if awaits_before:
         rep.fail(mk_finding(prog, PROP, "C14-CLOSED", close, awaits_before[0], "close() suspends before latching __isClosed: a concurrent close() would run the teardown twice"))
     else:
         rep.ok("C14-CLOSED", "close(): __isClosed assigned before the first await of the teardown", sample="must-event analysis over all paths")
+    if awaits_before_sig:
+        rep.fail(mk_finding(prog, PROP, "C14-CLOSED", close, awaits_before_sig[0], "close() suspends before signalingState is `closed`: a description that arrives while the teardown is suspended passes the "
+                            "state table of __validate_description and is applied to the closing connection", construct="close suspends before signalingState is closed"))
+    else:
+        rep.ok("C14-CLOSED", "close(): signalingState is `closed` before the first await of the teardown", sample="must-event analysis over all paths")
 
     # ---------------- C14-SLOTS (shared with C03)
     from .common import description_slots_rule
